@@ -553,6 +553,12 @@ func newSSAStyleFromString(content string, format map[int]string) (s *ssaStyle, 
 			return
 		}
 
+		// An empty cell means the attribute is not set (the writer leaves cells empty for the attributes a
+		// style doesn't have)
+		if len(item) == 0 {
+			continue
+		}
+
 		// Switch on attribute name
 		switch attr {
 		// Bool
